@@ -15,7 +15,7 @@ import (
 func init() { Registry["C14"] = checkC14 }
 
 func checkC14(p *core.Prog, r *core.Report) {
-	r.Explanation = "Decides structural necessary conditions of lossless codecs by extracting the byte layout of every straight-line codec function from SSA (constant-bound loops expanded): (R1) every Encode of package protocol writes all 64 positions; (R2) for each of the 20 Encode/Decode pairs every field byte that Decode reads from position p is the byte Encode writes at p (little-endian multi-byte fields, widening before shifting), string fields are read from the region they are written to; (R3) LockCommand and LockResultCommand match the offsets documented in README.md; (R4) every hand-inlined decoder of lock frames in server/ and client/ (functions storing LockCommand fields from a byte buffer) agrees with LockCommand.Decode on every arm, and the inlined result encoder of BinaryServerProtocol agrees with LockResultCommand.Encode; (R5) every RESULT_* code indexes inside ERROR_MSG (every result code has a text rendering); (R7) the text forms COUNT n / RCOUNT n reach the wire as n-1 and results render Count+1 / Rcount+1. (R8) the text parser's in-argument cursor is only reset, accumulated or set to the argument length (a necessary condition of chunking independence; found a real defect, repaired). (R9) the key/id normaliser defines all 16 bytes of its destination on every path (short arguments left-padded with zeros even in a recycled command). (R10) line segments of the reply parser can be empty (inclusive end initialised before the start; a real defect was repaired). NOT decided: the rest of chunking independence, Build/Parse round trip, binary-safety of arguments, effect equivalence of text and binary LOCK, key normalisation (MD5/hex paths)."
+	r.Explanation = "Decides structural necessary conditions of lossless codecs by extracting the byte layout of every straight-line codec function from SSA (constant-bound loops expanded): (R1) every Encode of package protocol writes all 64 positions; (R2) for each of the 20 Encode/Decode pairs every field byte that Decode reads from position p is the byte Encode writes at p (little-endian multi-byte fields, widening before shifting), string fields are read from the region they are written to; (R3) LockCommand and LockResultCommand match the offsets documented in README.md; (R4) every hand-inlined decoder of lock frames in server/ and client/ (functions storing LockCommand fields from a byte buffer) agrees with LockCommand.Decode on every arm, and the inlined result encoder of BinaryServerProtocol agrees with LockResultCommand.Encode; (R5) every RESULT_* code indexes inside ERROR_MSG (every result code has a text rendering); (R7) the text forms COUNT n / RCOUNT n reach the wire as n-1 and results render Count+1 / Rcount+1. (R8) the text parser's in-argument cursor is only reset, accumulated or set to the argument length (a necessary condition of chunking independence; found a real defect, repaired). (R9) the key/id normaliser defines all 16 bytes of its destination on every path (short arguments left-padded with zeros even in a recycled command). (R10) line segments of the reply parser can be empty (inclusive end initialised before the start; a real defect was repaired). (R11) every text converter assigns every wire field of its pooled LockCommand on every path. NOT decided: the rest of chunking independence, Build/Parse round trip, binary-safety of arguments, effect equivalence of text and binary LOCK, key normalisation (MD5/hex paths)."
 	r.Assumptions = []string{"Go type checker and go/ssa are correct for /repo", "codec functions are straight-line apart from constant-bound loops (anything else is reported as uninterpreted)"}
 	c14R123(p, r)
 	c14R4(p, r)
@@ -24,6 +24,7 @@ func checkC14(p *core.Prog, r *core.Report) {
 	c14R8(p, r)
 	c14R9(p, r)
 	c14R10(p, r)
+	c14R11(p, r)
 }
 
 // c14R8: the text parser is resumable - it returns in the middle of an argument
@@ -768,6 +769,116 @@ func c14R10(p *core.Prog, r *core.Report) {
 					r.Hold(rule, key, p.InstrPos(sl), "an empty scan yields an empty segment")
 				}
 			}
+		}
+	}
+}
+
+// c14R11: the text converters build their LockCommand in an object taken from
+// the connection's pool, which still holds the fields of the last command that
+// used it. "A LOCK written in text form has the same effect as the equivalent
+// binary command" therefore needs every wire field of the command to be
+// assigned on every path from the pool to the converter's return - by
+// GetAndResetLockCommand or by the converter itself. A field that is only
+// assigned when its argument is present (TIMEOUT, EXPRIED, flags) and not reset
+// otherwise keeps the previous command's value.
+func c14R11(p *core.Prog, r *core.Report) {
+	const rule = "C14/R11"
+	r.Rule(rule, "every text converter assigns every wire field of the pooled LockCommand (all fields but Data) on every path before returning it", 10)
+	reset := mustFunc(p, r, "protocol.(*TextCommandConverter).GetAndResetLockCommand")
+	if reset == nil {
+		return
+	}
+	// required fields from the type
+	var required []string
+	if pk := p.Pkg("protocol"); pk != nil {
+		if obj := pk.Types.Scope().Lookup("LockCommand"); obj != nil {
+			var walk func(t types.Type)
+			walk = func(t types.Type) {
+				st, ok := t.Underlying().(*types.Struct)
+				if !ok {
+					return
+				}
+				for i := 0; i < st.NumFields(); i++ {
+					f := st.Field(i)
+					if f.Embedded() {
+						walk(f.Type())
+						continue
+					}
+					if f.Name() != "Data" {
+						required = append(required, f.Name())
+					}
+				}
+			}
+			walk(obj.Type())
+		}
+	}
+	if len(required) < 10 {
+		r.Fail("C14/R11: LockCommand fields not found")
+		return
+	}
+	for _, fn := range p.FuncsIn("protocol") {
+		if fn.Blocks == nil || fn == reset {
+			continue
+		}
+		calls := false
+		for _, b := range fn.Blocks {
+			for _, ins := range b.Instrs {
+				if core.StaticCallee(ins) == reset {
+					calls = true
+				}
+			}
+		}
+		if !calls {
+			continue
+		}
+		name := core.FuncName(fn)
+		ex := core.NewExplorer(p, core.Hooks{
+			Inline: func(x *core.X, c *ssa.Function) bool { return c == reset },
+			Instr: func(x *core.X) {
+				switch t := x.Ins.(type) {
+				case *ssa.Store:
+					fa, ok := t.Addr.(*ssa.FieldAddr)
+					if !ok {
+						return
+					}
+					k := core.FieldKeyOf(fa.X.Type(), fa.Field)
+					if k.Type == "protocol.LockCommand" || k.Type == "protocol.Command" {
+						x.Set("as:"+k.Field, "1")
+					}
+				case ssa.CallInstruction:
+					// &cmd.F handed to a helper that fills it (key / id normaliser)
+					for _, a := range core.CallArgs(x.Ins) {
+						if fa, ok := a.(*ssa.FieldAddr); ok {
+							k := core.FieldKeyOf(fa.X.Type(), fa.Field)
+							if k.Type == "protocol.LockCommand" || k.Type == "protocol.Command" {
+								x.Set("as:"+k.Field, "1")
+							}
+						}
+					}
+				}
+			},
+			Exit: func(x *core.X, rets []core.Expr) {
+				if len(rets) == 0 || rets[0].S == "nil" {
+					return
+				}
+				var missing []string
+				for _, f := range required {
+					if x.Get("as:"+f) != "1" {
+						missing = append(missing, f)
+					}
+				}
+				key := name + ": fields defined at return"
+				if len(missing) == 0 {
+					r.Hold(rule, key, x.Pos(), "all wire fields assigned")
+				} else {
+					r.Violate(rule, key, x.Pos(), "the command is returned with "+strings.Join(missing, ", ")+" not assigned on this path: the pooled object keeps the value of the previous command on this connection, so the text command no longer equals its binary form", x.St.Trace)
+				}
+			},
+		})
+		ex.NoHist = true
+		ex.Run(fn, nil)
+		if ex.Imprecise != "" {
+			r.Fail("C14/R11 %s: %s", name, ex.Imprecise)
 		}
 	}
 }
